@@ -168,6 +168,9 @@ def render(model, outdir):
     metric_keys = [("ascender", "ascender"), ("cap height", "capHeight"), ("x-height", "xHeight"), ("baseline", None), ("descender", "descender")]
     L.append("fontMaster = (")
     ms = []
+    # sources with bracket layers (the rules families): the last master links its metrics to the first one. Only the C16 oracle reads
+    # these sources (substitutions, substitute outlines, substitute advances), and the link must not reach the bracket layers
+    link_master = full[-1]["name"] if brackets and len(full) >= 2 and not any(m.get("kerning") for m in full) else None
     for m in full:
         M = ["{"]
         if axes:
@@ -183,7 +186,11 @@ def render(model, outdir):
             M.append("value = (")
             M.append(",\n".join("{\nAxis = %s;\nLocation = %s;\n}" % (q(a["name"]), num(m["design_loc"][a["tag"]])) for a in axes))
             M.append(");")
-            M.append("}")
+            M.append("}" + ("," if m["name"] == link_master else ""))
+            if m["name"] == link_master:
+                # this master takes the advances (and kerning) of its master layers from the first master; bracket and brace
+                # layers keep their own
+                M.append('{\nname = "Link Metrics With First Master";\nvalue = 1;\n}')
             M.append(");")
         M.append(f"id = {ids[m['name']]};")
         M.append("metricValues = (")
@@ -313,6 +320,8 @@ def render(model, outdir):
     if brackets:
         man["rules"] = {"processing": (model["rules"] or {}).get("processing", "first"), "rules": bracket_rules}
         man["bracket"] = True
+        if link_master:
+            man["link_metrics"] = {"master": link_master, "to": full[0]["name"]}
     with open(os.path.join(outdir, "manifest.json"), "w") as f:
         json.dump(man, f, indent=1)
     return path
